@@ -551,7 +551,9 @@ fn de_machine(fam: &str, d: &Data, src: &Src, ctx: &mut Ctx) {
                 };
                 ok_items &= same;
             }
-            (it.size_hint(), b - f, ok_items)
+            // TrustedLen::len / is_empty are derived from the hint
+            let derived_ok = TrustedLen::len(&it) == b - f && TrustedLen::is_empty(&it) == (b == f);
+            (it.size_hint(), b - f, ok_items && derived_ok)
         });
         ctx.states += 1;
         ctx.evals += 1;
